@@ -14,7 +14,7 @@ func init() {
 		Title: "Path parameters are bound to exactly the URL text they stand for",
 		Decided: "C04.a the binder used for a request is the PathProcessor of the very router that selected the route (comma-ok assertion on the same Container.router value), else the default one; it is given the selected route, the selected service and this request's URL path, and its result reaches Request.pathParameters unmodified - nothing else stores that field; " +
 			"C04.b each binder returns a map made during that call; C04.c the binder rewrites or slices a URL value only under the template guards the matcher verified, a literal affix it strips is verified by the matcher, and its subtracted slice bound is guarded; C04.d a route's tokens and custom-verb flag are derived from its full path (root + route path) at build time and stored nowhere else; C04.e the JSR311 binder applies the route expression to the remainder left by the service expression, as the JSR311 selection does. C04.f = C01.g. C04.g nothing writes into the token slice of the request path after tokenisation (element store, copy, truncating append, in-place sort), in the tokenising function or in a module function the slice is handed to.",
-		NotDecided: "index alignment of the token walk and the round-trip law (value-level); the regular expressions; untokenizePath's join.",
+		NotDecided: "(C04.h, decided: a value stored in a parameter map is not cut out of the URL path string by slicing, searching or trimming it - it comes from the tokens or from a match group.) Not decided: index alignment of the token walk and the round-trip law (value-level); the regular expressions; untokenizePath's join.",
 		Rules: []Rule{
 			{ID: "C04.a", Template: "T-PROV", Required: true, Run: ruleC04a,
 				Doc: "The right binder with the right inputs. A binder cached on the container, chosen from a different router, or fed another route binds names the template does not have."},
@@ -26,6 +26,8 @@ func init() {
 				Doc: "Route tokens come from the full path: pathParts/hasCustomVerb are computed from Route.Path, which Build assigns from root path + route path."},
 			{ID: "C04.e", Template: "T-SIBLING", Required: true, Run: ruleC04e,
 				Doc: "The JSR311 binder reads the same match the JSR311 router made: service expression on the URL path, route expression on the final group of that match."},
+			{ID: "C04.h", Template: "T-PROV", Required: false, Run: ruleBoundFromTokens,
+				Doc: "What is bound comes from the pieces the path was cut into: a value stored in a parameter map is an element of the token slice (or joined from elements) or a group of a path expression's match, never a piece of the URL path string the binder finds again by searching or slicing it. strings.Index finds the first occurrence of the text, not the segment's position."},
 			{ID: "C04.g", Template: "T-OWN", Required: true, Run: ruleC04g,
 				Doc: "The token slice the values are bound from is read-only after tokenisation: no element store, copy(), truncating append or in-place sort on it or a sub-slice, in the tokenising function or in a module function it is handed to (a trace helper that abbreviates tokens in place changes the bound values when tracing is on)."},
 			{ID: "C04.f", Template: "T-ARGS", Required: false, SourceOnly: true, Run: ruleArgumentOrder,
